@@ -31,10 +31,12 @@ class MySet(set):
     pass
 
 
-CLASSES = {'MyList': MyList, 'MyDict': MyDict, 'MySet': MySet}
+import collections as _col
+NTH = _col.namedtuple('NTH', 'a b')
+CLASSES = {'MyList': MyList, 'MyDict': MyDict, 'MySet': MySet, 'NTH': NTH, 'defaultdict': _col.defaultdict}
 ENV = None
-NS = {'vlib': __import__('vlib')}
-KINDS = ['list', 'tuple', 'set', 'frozenset', 'dict', 'MyList', 'MyDict', 'MySet']
+NS = {'vlib': __import__('vlib'), 'collections': _col}
+KINDS = ['list', 'tuple', 'set', 'frozenset', 'dict', 'MyList', 'MyDict', 'MySet', 'NTH', 'DDICT']
 HASHABLE_INNER = ['tuple', 'frozenset']
 
 
@@ -52,6 +54,12 @@ def mk(kind, children, leafs):
     """children: list of recipes. dict kinds pair each child (as value) with a fresh key, in non-sorted insertion order."""
     if kind in ('list', 'tuple', 'set', 'frozenset'):
         return [kind, children]
+    if kind == 'NTH':        # namedtuple: itself never truncated, its field values are
+        ch = (children + [leafs.next(), leafs.next()])[:2]
+        return ['call', 'NTH', [], [['a', ch[0]], ['b', ch[1]]]]
+    if kind == 'DDICT':      # defaultdict(None, {...}): the dict argument is a dict at a nested level
+        keys = [leafs.next() for _ in children]
+        return ['call', 'defaultdict', [['none'], ['dict', [[k, c] for k, c in zip(keys, children)]]], []]
     if kind == 'MyList':
         return ['sub', 'MyList', ['list', children]]
     if kind == 'MySet':
@@ -109,6 +117,8 @@ def rand_shape(rng, depth, lf, hashable_only=False):
 
 def maxlen(v):
     m = 0
+    if isinstance(v, NTH):
+        return max(maxlen(v.a), maxlen(v.b))
     if isinstance(v, dict):
         m = len(v)
         for k, x in v.items():
@@ -124,12 +134,17 @@ def brackets_of(v):
     t = type(v)
     if t in (list, tuple, set, dict):
         return 1
-    return 2   # frozenset([...]) and Subclass([...]) / Subclass({...})
+    return 2   # frozenset([...]), Subclass([...]) / Subclass({...}), defaultdict(None, {...})
 
 
 def reference(v, N, sort, depth, notices):
     """Returns the truncated value; appends (K, depth) of the expected notices in output order."""
     t = type(v)
+    if isinstance(v, NTH):
+        return NTH(reference(v.a, N, sort, depth + 1, notices), reference(v.b, N, sort, depth + 1, notices))
+    if isinstance(v, _col.defaultdict):
+        inner = reference(dict(v), N, sort, depth + 1, notices)
+        return _col.defaultdict(v.default_factory, inner)
     if isinstance(v, dict):
         keys = list(v.keys())
         if sort:
